@@ -179,6 +179,11 @@ class Model:
             if t.get('dtype'):
                 da.encoding['dtype'] = numpy.dtype(t['dtype'])
             extra[t['name']] = da
+            if t.get('bounds'):
+                half = numpy.timedelta64(1800, 's')
+                values = numpy.asarray(t['values'], dtype='datetime64[ns]')
+                da.attrs['bounds'] = t['name'] + '_bnds'
+                time_bounds = xarray.DataArray(numpy.stack([values - half, values + half], axis=1), dims=[t['dim'], 'nv2'])
         coords = {}
         for d in self.depths:
             attrs = dict(d.get('attrs', {}))
@@ -192,6 +197,10 @@ class Model:
         order = self.encoding.get('variable_order')
         if order is not None:
             data_vars = {name: data_vars[name] for name in order}
+        if self.time is not None and self.time.get('bounds') == 'first':
+            data_vars = {self.time['name'] + '_bnds': time_bounds, **data_vars}      # listed before the coordinate
+        elif self.time is not None and self.time.get('bounds') == 'last':
+            extra[self.time['name'] + '_bnds'] = time_bounds
         ds = ds.assign(data_vars)
         if extra:
             time_name = self.time['name'] if self.time is not None else None
@@ -228,6 +237,7 @@ class Model:
             'holes': sum(1 for c in self.cells if c is None),
             'encoding': {k: v for k, v in self.encoding.items() if k != 'variable_order'},
             'variables': {n: list(v.dims) for n, v in self.variables.items()},
+            'time_bounds': self.time.get('bounds') if self.time is not None else None,
         }
 
 
